@@ -338,7 +338,7 @@ def s1b(ctx, F):
 # ---------------------------------------------------------------------------
 
 PAIR_FLOOR = {"chess::Game::get_moves": 1, "search::quiescence_search": 1, "search::get_best_move_score_depth_1": 1,
-              "search::get_best_move_score": 3, "search::get_best_move_entry": 3, "performance_test::perft": 1}
+              "search::get_best_move_score": 1, "search::get_best_move_entry": 1, "performance_test::perft": 1}
 
 
 def s2(ctx, F):
@@ -392,7 +392,7 @@ def s2(ctx, F):
         pass_clone = a0.get("k") == "MethodCall" and a0["name"] == "clone"
     ctx.check("C03.S2", "driver-searches-a-clone", pass_clone, fn=d["path"], file=d["file"],
               what="the driver must hand a clone of the caller's game to the search", found=pass_clone)
-    ctx.floor("C03.S2", "balanced push/pop pairs", total_pairs, 10)
+    ctx.floor("C03.S2", "balanced push/pop pairs", total_pairs, 6)       # 10 on the reference tree; sites may be merged behind one helper or one call
 
 
 def purity(ctx, F):
